@@ -194,6 +194,12 @@ def big_documents(thorough=False):
                 "\n  Given a\n   | c\x0cd | e\u2029f |\n  When b\n"))
     out.append(("same-length-rows-different-cells", "Feature: f\n Scenario: s\n  Given t\n   | name  | value |\n   | a | b | c     |\n"))
     out.append(("same-length-rows-same-cells", "Feature: f\n Scenario: s\n  Given t\n   | name  | value |\n   | a|b   | c|d|e |\n   | a\\|b  | c     |\n  And u\n   | 1 | 2 |\n   | 3 | 4 |\n   |11|22 |\n"))
+    for n in (31, 32, 33, 40):
+        rows = "".join("   | %d |\n" % i for i in range(n))
+        out.append(("two-big-examples-blocks-%d" % n, "@f\nFeature: f\n @o\n Scenario Outline: o <a>\n  Given <a>\n  @first\n  Examples: one\n   | a |\n" + rows +
+                    "  @second @extra\n  Examples: two\n   | a |\n" + rows + "  Examples: untagged\n   | a |\n" + rows + "  @third\n  Examples: small\n   | a |\n   | x |\n"))
+    tagline = " ".join("@REQ-%04d" % i for i in range(30)) + "@REQ-0030@REQ-0031 " + " ".join("@REQ-%04d" % i for i in range(32, 60))
+    out.append(("long-tag-line-with-glued-tags", "Feature: f\n " + tagline + "\n Scenario: s\n  Given x\n " + tagline + "  # c @no\n\n " + tagline[:380] + "\n Scenario Outline: o\n  Given <a>\n  " + tagline + "\n  Examples:\n   | a |\n   | 1 |\n"))
     out.append(("step-at-column-10003", "Feature: f\n Background:\n" + " " * 10002 + "Given far right\n  Given normal\n   | t |\n Scenario: s\n" + " " * 10002 + "When far\n   \"\"\"\n   d\n   \"\"\"\n  Then near\n"))
     out.append(("rows-differing-only-in-the-escaped-pipe", "Feature: f\n Background:\n  Given t\n   | ls\\|wc | sort |\n   | ls | wc\\|sort |\n   | ls\\|wc\\|sort | |\n Scenario: s\n  When u\n   | a\\|b | c |\n   | a | b\\|c |\n"))
     for n in (129, 130, 300):
